@@ -132,6 +132,34 @@ theorem T14_F24_unbounded_worker_counterexample :
     ((run { bounded := false } sched).retries.map (·.1.pushes) = [40] ∧ (run { bounded := false } sched).delivered = []) ∧
     (run {} sched).delivered.map (fun x => (x.2, x.1.pushes)) = [(.short, 16)] := by decide +kernel
 
+/-- **Observation, kernel-checked (what happens instead of "completed before the worker exits" when the thread dies)**: when
+`submit_and_wait` fails with anything but `EINTR`, `run_worker` panics (`panic!("unexpected error")`); from then on, whatever
+the environment does, nothing is delivered any more: the commands in the slab, in `retries` and in the command channel are
+never completed — and since every `IoHandle` owns a sender of its completion channel, `recv()` of their callers blocks for
+ever instead of failing. -/
+theorem T14_worker_panic_strands_pending (s : St) (h : s.pc = .panicked) (acts : List Act) :
+    (run s acts).pc = .panicked ∧ (run s acts).delivered = s.delivered ∧ (run s acts).pending.occ = s.pending.occ ∧
+      (run s acts).retries = s.retries := by
+  induction acts generalizing s with
+  | nil => exact ⟨h, rfl, rfl, rfl⟩
+  | cons a l ih =>
+    have hstep : (step s a).pc = .panicked ∧ (step s a).delivered = s.delivered ∧
+        (step s a).pending.occ = s.pending.occ ∧ (step s a).retries = s.retries := by
+      cases a with
+      | worker sr => simp [step, wstep, h]
+      | close => simp [step, h]
+      | complete key res errno => simp only [step]; split <;> simp [h]
+      | spurious key res errno => simp [step, h]
+      | send hd r => simp only [step]; split <;> simp [h]
+    obtain ⟨h1, h2, h3, h4⟩ := hstep
+    obtain ⟨i1, i2, i3, i4⟩ := ih (step s a) h1
+    exact ⟨i1, i2.trans h2, i3.trans h3, i4.trans h4⟩
+
+/-- a failing `submit_and_wait` (e.g. `EBUSY`) with two writes queued: the worker is dead, both stay in the slab -/
+example :
+    let s := run {} [.send 0 false, .send 0 false, .worker .ok, .worker .ok, .worker .ok, .worker .ok, .worker .err]
+    s.pc = .panicked ∧ s.pending.occ.length = 2 ∧ s.delivered = [] := by decide +kernel
+
 /-- **The counting loops return `Ok` iff EVERY command completed `Ok`, and only after all of them completed.**
 `results`: the results of all commands submitted on the handle; `arrivals`: the order in which the pool delivers them (any
 permutation — `T14_io_exactly_once`: each exactly once, on that handle).
